@@ -284,7 +284,9 @@ func TestC14(t *testing.T) {
 				bar.Wait()
 				for k := 0; k < nops; k++ {
 					o := top{client: g, format: rt.Pick(gr, formats)}
-					if gr.Intn(2) == 0 || k == 0 {
+					// (a goroutine may well start with a read: looking up a format on an event that has no table
+					// yet is an ordinary thing to do)
+					if gr.Intn(2) == 0 || (k == 0 && g%2 == 0) {
 						o.write = true
 						o.val = fmt.Sprintf("v-%d-%d", g, k)
 						o.call = rt.Tick()
